@@ -9,25 +9,35 @@ import OLP.Shell.LemmasB
 namespace OLP.Props.C08
 open OLP OLP.KV OLP.Shell
 
+set_option linter.unusedSectionVars false
+
 variable {K V C E T H D : Type} [DecidableEq K] [DecidableEq V] [DecidableEq C] [DecidableEq H]
 variable (cfg : Cfg K V) (hs : Handlers K V C E T H D) (e : E) (boot : Tree K V → Vol C V)
 
 /-- after a restart Info reports height and hash input of the last completed commit -/
-theorem info_after_crash (n : Node K V C T H D) : info (crash boot hs n) = info n := sorry
+theorem info_after_crash (n : Node K V C T H D) : info (crash boot hs n) = info n := by
+  show (n.tree.reopen.version, n.tree.reopen.log.take (savedPrefixLen n.tree.reopen.log)) =
+    (n.tree.version, n.tree.log.take (savedPrefixLen n.tree.log))
+  rw [(reopen_fields n.tree).2, reopen_log, savedPrefixLen_take, List.take_take, Nat.min_self]
 
 /-- nothing of a block is on disk before Commit: at every point inside a block (after BeginBlock,
     after the k-th DeliverTx, after EndBlock) a crash leads to the same restarted node as a crash
     before the block began -/
 theorem crash_midblock_eq_crash_before (n : Node K V C T H D) (txs : List T) (k : Nat) (ended : Bool) :
-    crash boot hs (midBlock cfg hs e n txs k ended) = crash boot hs n := sorry
+    crash boot hs (midBlock cfg hs e n txs k ended) = crash boot hs n := by
+  have h := midBlock_frame cfg hs e n txs k ended
+  exact crash_eq_of hs boot _ _ h.1 h.2.1 h.2.2.2
 
 /-- mempool checks between the calls do not change that -/
 theorem crash_after_check_eq (n : Node K V C T H D) (tx : T) :
-    crash boot hs (checkTx cfg hs e n tx).1 = crash boot hs n := sorry
+    crash boot hs (checkTx cfg hs e n tx).1 = crash boot hs n := by
+  have h := checkTx_frame cfg hs e n tx
+  exact crash_eq_of hs boot _ _ h.1 h.2.2.1 h.2.2.2.2
 
 /-- Info after a crash anywhere inside a block is Info of the previous commit -/
 theorem info_after_midblock_crash (n : Node K V C T H D) (txs : List T) (k : Nat) (ended : Bool) :
-    info (crash boot hs (midBlock cfg hs e n txs k ended)) = info n := sorry
+    info (crash boot hs (midBlock cfg hs e n txs k ended)) = info n := by
+  rw [crash_midblock_eq_crash_before, info_after_crash]
 
 /-- replay converges: at a block boundary whose volatile memory is what start-up would compute,
     and with every hook re-aimed, crashing anywhere inside the block and replaying the whole block
@@ -37,17 +47,25 @@ theorem replay_converges (ha : AllAimed hs) (n : Node K V C T H D) (hb : n.AtBou
     let restarted := crash boot hs (midBlock cfg hs e n txs k ended)
     (execBlock cfg hs e restarted txs).2.results = (execBlock cfg hs e n txs).2.results ∧
     (execBlock cfg hs e restarted txs).2.log = (execBlock cfg hs e n txs).2.log ∧
-    (execBlock cfg hs e restarted txs).1.consensus = (execBlock cfg hs e n txs).1.consensus := sorry
+    (execBlock cfg hs e restarted txs).1.consensus = (execBlock cfg hs e n txs).1.consensus := by
+  intro restarted
+  have hr : restarted = crash boot hs n := crash_midblock_eq_crash_before cfg hs e boot n txs k ended
+  have hc := (crash_boundary hs boot n hb hv).2.1
+  rw [← hr] at hc
+  have h := execBlock_congr cfg hs e ha restarted n hc txs
+  exact ⟨congrArg BlockOut.results h.1, congrArg BlockOut.log h.1, h.2⟩
 
 /-- a crash right after a completed block (Commit done, index fed) loses nothing consensus
     depends on, up to the deliver overlay that the next BeginBlock replaces -/
 theorem crash_at_boundary (n : Node K V C T H D) (hb : n.AtBoundary) (hv : n.vol = boot n.tree) :
     let c := crash boot hs n
-    c.tree = n.tree ∧ c.vol = n.vol ∧ c.idx = n.idx ∧ c.height = n.height := sorry
+    c.tree = n.tree ∧ c.vol = n.vol ∧ c.idx = n.idx ∧ c.height = n.height :=
+  (crash_boundary hs boot n hb hv).2.1
 
 /-- execBlock keeps nodes at a boundary -/
 theorem execBlock_at_boundary (n : Node K V C T H D) (hb : n.AtBoundary) (wf : n.tree.WF)
-    (txs : List T) : (execBlock cfg hs e n txs).1.AtBoundary := sorry
+    (txs : List T) : (execBlock cfg hs e n txs).1.AtBoundary :=
+  (execBlock_boundary cfg hs e n hb wf txs).1
 
 /-- repeated crashes, at any points, over a whole history: if the application keeps its volatile
     memory derived from the persisted tree at boundaries, a node that crashes (possibly several
@@ -70,7 +88,49 @@ theorem history_with_crashes_converges (ha : AllAimed hs) (hd : VolDerived cfg b
     (n : Node K V C T H D) (hb : n.AtBoundary) (wf : n.tree.WF) (hv : n.vol = boot n.tree)
     (hist : List (List T × List (Nat × Bool))) :
     (execHistoryWithCrashes cfg hs e boot n hist).map (fun o => (o.results, o.log)) =
-    (execBlocks cfg hs e n (hist.map (·.1))).2.map (fun o => (o.results, o.log)) := sorry
+    (execBlocks cfg hs e n (hist.map (·.1))).2.map (fun o => (o.results, o.log)) := by
+  -- one block with crashes, against any node with the same tree, volatile memory, index, height
+  have block : ∀ (cps : List (Nat × Bool)) (txs : List T) (m m' : Node K V C T H D),
+      m.AtBoundary → m.tree.WF → m.vol = boot m.tree → CEq m m' →
+      (execBlockWithCrashes cfg hs e boot m txs cps).2 = (execBlock cfg hs e m' txs).2 ∧
+      CEq (execBlockWithCrashes cfg hs e boot m txs cps).1 (execBlock cfg hs e m' txs).1 ∧
+      (execBlockWithCrashes cfg hs e boot m txs cps).1.AtBoundary ∧
+      (execBlockWithCrashes cfg hs e boot m txs cps).1.tree.WF ∧
+      (execBlockWithCrashes cfg hs e boot m txs cps).1.vol =
+        boot (execBlockWithCrashes cfg hs e boot m txs cps).1.tree := by
+    intro cps
+    induction cps with
+    | nil =>
+      intro txs m m' hb wf hv hc
+      have h := execBlock_congr cfg hs e ha m m' hc txs
+      have hb' := execBlock_boundary cfg hs e m hb wf txs
+      exact ⟨h.1, CEq.of_consensus h.2, hb'.1, hb'.2, hd e m txs hb hv⟩
+    | cons cp more ih =>
+      intro txs m m' hb wf hv hc
+      obtain ⟨k, ended⟩ := cp
+      have hr : crash boot hs (midBlock cfg hs e m txs k ended) = crash boot hs m :=
+        crash_midblock_eq_crash_before cfg hs e boot m txs k ended
+      have hcb := crash_boundary hs boot m hb hv
+      simp only [execBlockWithCrashes]
+      rw [hr]
+      refine ih txs (crash boot hs m) m' hcb.1 ?_ hcb.2.2 ?_
+      · rw [hcb.2.1.1]; exact wf
+      · exact ⟨hcb.2.1.1.trans hc.1, hcb.2.1.2.1.trans hc.2.1, hcb.2.1.2.2.1.trans hc.2.2.1,
+          hcb.2.1.2.2.2.trans hc.2.2.2⟩
+  have main : ∀ (hist : List (List T × List (Nat × Bool))) (m m' : Node K V C T H D),
+      m.AtBoundary → m.tree.WF → m.vol = boot m.tree → CEq m m' →
+      (execHistoryWithCrashes cfg hs e boot m hist).map (fun o => (o.results, o.log)) =
+      (execBlocks cfg hs e m' (hist.map (·.1))).2.map (fun o => (o.results, o.log)) := by
+    intro hist
+    induction hist with
+    | nil => intro m m' _ _ _ _; rfl
+    | cons b rest ih =>
+      intro m m' hb wf hv hc
+      obtain ⟨txs, cps⟩ := b
+      have h := block cps txs m m' hb wf hv hc
+      simp only [execHistoryWithCrashes, List.map_cons, execBlocks]
+      rw [h.1, ih _ _ h.2.2.1 h.2.2.2.1 h.2.2.2.2 h.2.1]
+  exact main hist n n hb wf hv ⟨rfl, rfl, rfl, rfl⟩
 
 /-! ## Non-vacuity and the shape of a violation (a cache that start-up does not rebuild) -/
 
@@ -80,7 +140,9 @@ def exN : Node Nat Nat Nat Nat Nat Nat :=
     idx := [], aim := .check, height := 0, closed := false }
 
 example : exN.AtBoundary ∧ exN.vol = (fun (_ : Tree Nat Nat) => (fun _ => none : Vol Nat Nat)) exN.tree ∧
-    (exN.tree : Tree Nat Nat).WF := sorry
+    (exN.tree : Tree Nat Nat).WF := by
+  refine ⟨⟨rfl, rfl, rfl, rfl, rfl⟩, rfl, ?_⟩
+  simp [Tree.WF, exN, Tree.empty]
 
 /-- a volatile counter bumped by every delivered transaction and copied into the state, which
     start-up resets to nothing: not `VolDerived`, and a restart changes the next commit log -/
@@ -92,6 +154,8 @@ def cacheH : Handlers Nat Nat Nat Unit Nat Nat Nat :=
 theorem underived_cache_diverges :
     let n1 := (execBlock exCfg cacheH () exN [1]).1
     (execBlock exCfg cacheH () n1 [2]).2.log ≠
-    (execBlock exCfg cacheH () (crash (fun _ => (fun _ => none)) cacheH n1) [2]).2.log := sorry
+    (execBlock exCfg cacheH () (crash (fun _ => (fun _ => none)) cacheH n1) [2]).2.log := by
+  dsimp only
+  decide
 
 end OLP.Props.C08
